@@ -52,6 +52,16 @@ CLAIMED['C03'] = dict(
          'NUL termination or on a larger underlying buffer - exactly the cases the test-suite (std::string data) cannot exercise. Pattern coverage is enforced.',
     ref='4.4, 5/C03')
 
+CLAIMED['C07'] = dict(
+    technique='availability dataflow (zone domain) + interface-subset check over resolved callees + symbolic window arithmetic of buffer_input (provenance-tagged)',
+    text='Claims the structural necessary conditions, not the behavioural statement: (a) B1-B3 on every rule/peek/eol instantiation over memory and buffer inputs - every inspection is '
+         'preceded by an adequate availability request, which is what lets buffer_input::require() see every byte a memory input exposes; (b) rule code only calls input members that '
+         'both families provide (resolved callees; documented memory-only places listed with reasons); (c) buffer_input::require/discard/size/empty/end/bump*: the reader gets the current '
+         'm_end and a length bounded by the current free space, require() only exits with enough data / end of input / overflow_error, discard() preserves window and counters; (d) the '
+         'derived input classes add constructors only. Breaking any of these breaks input-class independence for some reader schedule the tests never produce (they read full chunks). '
+         'OS/stream behaviour is out of reach of this technique.',
+    ref='5/C07, 4.4')
+
 NOT_YET = 'check not built yet in this round (see DESIGN.md section 10 for the order of construction); no claim is made'
 
 NA_REASONS = {}
